@@ -134,7 +134,7 @@ Fixpoint meet_scan (startb_zero endb_is_len : bool) (startb endb i : Z) (fs bs :
   | [f], [b] => meet_last endb_is_len (tiebreak A startb endb i) i f b best
   | f :: fs', b :: bs' =>
     meet_scan startb_zero endb_is_len startb endb (i + 1) fs' bs'
-              (meet_col startb_zero (tiebreak A startb endb i) i f b best)
+              (meet_col (i =? 0) (tiebreak A startb endb i) i f b best)
   | _, _ => best
   end.
 
